@@ -7,8 +7,14 @@ Tr == ndJsonDeserialize(IOEnv.TRACE_FILE)
 VARIABLES l, bad
 tvars == <<l, bad>>
 
+Abs(x) == IF x < 0 THEN -x ELSE x
+(* raw numbers: positions in micro-units, box lengths in 1e-4 units (the configuration files carry fewer digits for the box), *)
+(* atom names as written; an event that is not a file-level call carries empty sequences                                    *)
+SameWithin(a, b, tol) == Len(a) = Len(b) /\ \A i \in 1..Len(a) : Abs(a[i] - b[i]) <= tol
 Clauses(ev) ==
-  [ V_PositionsKept   |-> ev.positions_kept /\ ev.box_kept /\ ev.names_kept,
+  [ V_PositionsKept   |-> /\ SameWithin(ev.x1, ev.x0, 2)                          \* every coordinate of every atom
+                          /\ (ev.b0 = <<>> \/ SameWithin(ev.b1, ev.b0, 2))         \* the box of the shooting frame (one added from the template is fine)
+                          /\ ev.names1 = ev.names0,
     V_SourceUntouched |-> ev.source_bytes_same /\ ev.caller_system_same,
     V_NewConfig       |-> ev.config_is_new_file /\ ev.config_index_zero,
     V_ZeroMomentum    |-> ev.zero_momentum => ev.momentum_zero,
